@@ -34,16 +34,16 @@ Proof.
   intros Ha Hc. destruct (lopen b) eqn:Eb; auto.
 Qed.
 Lemma same_emit : forall o m, same m (emit o m).
-Proof. intros o [s n fr q l]. split; [reflexivity|]. split; [intros x H; right; exact H|reflexivity]. Qed.
+Proof. intros o [s n fr q l f6]. split; [reflexivity|]. split; [intros x H; right; exact H|reflexivity]. Qed.
 Lemma same_upd : forall f m, (forall s, lcp (f s) = lcp s) -> same m (upd f m).
-Proof. intros f [s n fr q l] H. split; [apply H|]. split; [intros x K; exact K|reflexivity]. Qed.
+Proof. intros f [s n fr q l f6] H. split; [apply H|]. split; [intros x K; exact K|reflexivity]. Qed.
 
 Ltac prim := repeat first [apply same_refl | apply same_emit | (apply same_upd; intros []; reflexivity)
                           | (eapply same_trans; [|apply same_emit]) | (eapply same_trans; [|apply same_upd; intros []; reflexivity])].
 
 Lemma check_open_same : forall i m, same m (check_open i m).
 Proof.
-  intros i [s n fr q l]. unfold check_open. cbn [ms]. destruct (ph s); try apply same_refl.
+  intros i [s n fr q l f6]. unfold check_open. cbn [ms]. destruct (ph s); try apply same_refl.
   destruct (ipcp_open s || ip6cp_open s); try apply same_refl.
   destruct (cur4 s); destruct s; repeat split; cbn; auto; intros x K; cbn; auto.
 Qed.
@@ -94,9 +94,9 @@ Proof.
   intros v i g m Hg. unfold lcp_apply. pose proof (Hg (lcp (ms m))) as C.
   destruct (g (lcp (ms m))) as [f' acts] eqn:Eg. cbn [fst snd] in C.
   set (m1 := upd (set_lcp f') m).
-  assert (E1 : ext m m1 /\ mfree m1 = mfree m) by (destruct m as [s n fr q l]; split; auto; intros o K; exact K).
+  assert (E1 : ext m m1 /\ mfree m1 = mfree m) by (destruct m as [s n fr q l f6]; split; auto; intros o K; exact K).
   destruct (lcp_fold_same v i acts m1) as (s1 & s2 & s3).
-  assert (L1 : lcp (ms m1) = f') by (destruct m as [s n fr q l]; destruct s; reflexivity).
+  assert (L1 : lcp (ms m1) = f') by (destruct m as [s n fr q l f6]; destruct s; reflexivity).
   repeat split.
   - intros o K. apply s2. apply (proj1 E1). exact K.
   - unfold lopen. rewrite s1, L1. intros Ha Hb. unfold lcp_class in C. rewrite Ha, Hb in C.
@@ -106,10 +106,44 @@ Proof.
   - rewrite s3. apply (proj2 E1).
 Qed.
 Lemma publish_aaa_same : forall t m, same m (publish_aaa t m).
-Proof. intros t [s n fr q l]. destruct s; repeat split; cbn; auto. intros x K; right; exact K. Qed.
+Proof. intros t [s n fr q l f6]. destruct s; repeat split; cbn; auto. intros x K; right; exact K. Qed.
 
 Lemma fsm_close_not_open : forall f, opb (fs (fst (fsm_close f))) = false.
 Proof. intros [s rc]; destruct s; reflexivity. Qed.
+
+(* DHCPv6 over PPP: the LCP automaton and the IPv4 pool are not involved *)
+Lemma lcp_on_fam : forall pdf g s, lcp (on_fam pdf g s) = lcp s.
+Proof. intros pdf g []; reflexivity. Qed.
+Lemma same_set : forall s' m, lcp s' = lcp (ms m) -> same m (upd (fun _ => s') m).
+Proof. intros s' [s n fr q l f6] H. split; [exact H|]. split; [intros x K; exact K|reflexivity]. Qed.
+Lemma alloc6_same : forall pdf m k m2, alloc6 pdf m = Some (k, m2) -> same m m2.
+Proof.
+  intros pdf m k m2 E. unfold alloc6 in E. destruct (pool_of pdf (mfree6 m)); [discriminate|]. inversion E; subst; clear E.
+  destruct m as [s n0 fr q l f6]. cbn [ms mn mfree mq mo mfree6]. split; [apply lcp_on_fam|].
+  split; [intros x K; right; exact K|reflexivity].
+Qed.
+Lemma resolve6_same : forall pdf m, same m (fst (resolve6 pdf m)).
+Proof.
+  intros pdf m. unfold resolve6. destruct (xc (fam_of pdf (v6 (ms m)))); [apply same_refl|].
+  destruct (alloc6 pdf m) as [[k m2]|] eqn:E; [|apply same_refl]. cbn [fst].
+  eapply same_trans; [eapply alloc6_same; eauto|]. apply same_upd. intros s. apply lcp_on_fam.
+Qed.
+Lemma dh6_same : forall req m, same m (dh6 req m).
+Proof.
+  intros req m. unfold dh6.
+  pose proof (resolve6_same false m) as H1. destruct (resolve6 false m) as [m1 n_na]. cbn [fst] in H1.
+  pose proof (resolve6_same true m1) as H2. destruct (resolve6 true m1) as [m2 n_pd]. cbn [fst] in H2.
+  eapply same_trans; [exact H1|]. eapply same_trans; [exact H2|]. clear.
+  destruct (xc (na (v6 (ms m2)))), (xc (pd (v6 (ms m2)))); try apply same_refl; destruct req.
+  all: repeat first
+       [ match goal with
+         | |- same _ (match ?x with Some _ => _ | None => _ end) => destruct x
+         | |- same _ (if ?x then _ else _) => destruct x
+         end
+       | (eapply same_trans; [|apply same_emit]) ].
+  all: apply same_set; unfold reserve6;
+    try (destruct (reserved6 false (ms m2) && reserved6 true (ms m2))); repeat rewrite lcp_on_fam; reflexivity.
+Qed.
 
 Lemma handle_frame_marks : forall v i f m, marks m (handle_frame v i f m).
 Proof.
@@ -137,11 +171,10 @@ Proof.
   - apply same_marks. apply same_emit.
   - destruct (in_net (ph (ms m))); [|apply same_marks; apply same_refl].
     destruct (fs (ip6cp (ms m))); try (apply same_marks; apply same_refl).
-    destruct (ip6cp_open (ms m)); apply same_marks; [apply same_emit|apply same_refl].
+    destruct (ip6cp_open (ms m)); apply same_marks; [apply dh6_same|apply same_refl].
   - destruct (in_net (ph (ms m))); [|apply same_marks; apply same_refl].
     destruct (fs (ip6cp (ms m))); try (apply same_marks; apply same_refl).
-    destruct (ip6cp_open (ms m)); apply same_marks; [|apply same_refl].
-    eapply same_trans; [apply same_emit|apply same_emit].
+    destruct (ip6cp_open (ms m)); apply same_marks; [|apply same_refl]. apply dh6_same.
 Qed.
 Lemma handle_timer_marks : forall v i t m, marks m (handle_timer v i t m).
 Proof.
@@ -156,27 +189,49 @@ Qed.
 
 (* onAuthResult: marks; and it lowers the pool by at most one, only when allowed *)
 Definition fstep (m m' : mach) : Prop := mfree m' = mfree m \/ (mfree m = S (mfree m')).
-Lemma start_ncp_marks : forall v i m, ext m (start_ncp v i m) /\ lcp (ms (start_ncp v i m)) = lcp (ms m) /\ fstep m (start_ncp v i m).
+Lemma start_v4_marks : forall m, ext m (start_v4 m) /\ lcp (ms (start_v4 m)) = lcp (ms m) /\ fstep m (start_v4 m).
 Proof.
-  intros v i m. unfold start_ncp.
-  set (m1 := match cur4 (ms m) with
-             | ANone => match mfree m with
-                        | S fr => emit GAlloc (mkM (set_addr (static_attr (ms m)) APool (assigned4 (ms m)) (acked4 (ms m)) true (ms m)) (mn m) fr (mq m) (mo m))
-                        | O => m end
-             | _ => m end).
-  assert (A : ext m m1 /\ lcp (ms m1) = lcp (ms m) /\ fstep m m1).
-  { unfold m1. destruct m as [s n fr q l]. cbn [ms mfree mn mq mo]. destruct (cur4 s); try (repeat split; [intros o K; exact K|left; reflexivity]).
+  intros m. unfold start_v4.
+  destruct m as [s n fr q l f6]. cbn [ms mfree mn mq mo mfree6]. destruct (cur4 s); try (repeat split; [intros o K; exact K|left; reflexivity]).
+  - destruct fr; [repeat split; [intros o K; exact K|left; reflexivity]|].
+    destruct s; repeat split; cbn; [intros o K; right; exact K|right; reflexivity].
+  - destruct (live s); [repeat split; [intros o K; exact K|left; reflexivity]|].
     destruct fr; [repeat split; [intros o K; exact K|left; reflexivity]|].
-    destruct s; repeat split; cbn; [intros o K; right; exact K|right; reflexivity]. }
-  destruct A as (a1 & a2 & a3).
-  assert (B : forall mm, same m1 mm -> ext m mm /\ lcp (ms mm) = lcp (ms m) /\ fstep m mm).
-  { intros mm (b1 & b2 & b3). repeat split; [intros o K; apply b2; apply a1; exact K|congruence|].
-    destruct a3 as [a3|a3]; [left|right]; congruence. }
-  apply B.
+    repeat split; cbn; [intros o K; right; exact K|right; reflexivity].
+Qed.
+Lemma rereserve6_same : forall pdf m, same m (rereserve6 pdf m).
+Proof.
+  intros pdf m. unfold rereserve6. destruct (pool_of pdf (mfree6 m)); [apply same_refl|].
+  destruct m as [s n0 fr q l f6]. split; [reflexivity|]. split; [intros x K; right; exact K|reflexivity].
+Qed.
+Lemma start_na_same : forall m, same m (start_na m).
+Proof.
+  intros m. unfold start_na. destruct (xs (na (v6 (ms m)))).
+  - destruct (live (ms m)); [apply same_refl|apply rereserve6_same].
+  - destruct (alloc6 false m) as [[k m2]|] eqn:E; [|apply same_refl].
+    eapply same_trans; [eapply alloc6_same; eauto|]. apply same_upd. intros s. apply lcp_on_fam.
+Qed.
+Lemma start_pd_same : forall m, same m (start_pd m).
+Proof.
+  intros m. unfold start_pd. destruct (xs (pd (v6 (ms m)))); [|apply same_refl].
+  destruct (live (ms m)); [apply same_refl|apply rereserve6_same].
+Qed.
+Lemma start_ncps_same : forall v i m1, same m1 (start_ncps v i m1).
+Proof.
+  intros v i m1. unfold start_ncps.
   eapply same_trans; [|apply ncp_apply_same]. eapply same_trans; [|apply ncp_apply_same].
   destruct (cur4 (ms m1)); try apply same_refl;
     (eapply same_trans; [|apply ncp_apply_same]); (eapply same_trans; [|apply ncp_apply_same]);
     apply same_upd; intros []; reflexivity.
+Qed.
+Lemma start_ncp_marks : forall v i m, ext m (start_ncp v i m) /\ lcp (ms (start_ncp v i m)) = lcp (ms m) /\ fstep m (start_ncp v i m).
+Proof.
+  intros v i m. unfold start_ncp.
+  destruct (start_v4_marks m) as (a1 & a2 & a3).
+  assert (B : forall mm, same (start_v4 m) mm -> ext m mm /\ lcp (ms mm) = lcp (ms m) /\ fstep m mm).
+  { intros mm (b1 & b2 & b3). repeat split; [intros o K; apply b2; apply a1; exact K|congruence|].
+    destruct a3 as [a3|a3]; [left|right]; congruence. }
+  apply B. eapply same_trans; [apply start_na_same|]. eapply same_trans; [apply start_pd_same|apply start_ncps_same].
 Qed.
 Lemma on_auth_denied_marks : forall v i st m, marks m (on_auth_result v i false st m).
 Proof.
@@ -190,20 +245,22 @@ Proof.
   intros v i st m. unfold on_auth_result, lopen.
   set (m0 := match pty (ms m) with PtPap => emit (OPap 3) m | PtChap => emit (OChap 4) m | PtNone => m end).
   assert (E : lcp (ms (upd (set_pend None PtNone) (lcp_apply v i fsm_close m0))) = lcp (ms (lcp_apply v i fsm_close m0)))
-    by (destruct (lcp_apply v i fsm_close m0) as [s ? ? ? ?]; destruct s; reflexivity).
+    by (destruct (lcp_apply v i fsm_close m0) as [s ? ? ? ? ?]; destruct s; reflexivity).
   rewrite E. unfold lcp_apply. destruct (fsm_close (lcp (ms m0))) as [f' acts] eqn:Ec.
   rewrite (proj1 (lcp_fold_same v i acts (upd (set_lcp f') m0))).
-  assert (L : lcp (ms (upd (set_lcp f') m0)) = f') by (destruct m0 as [s ? ? ? ?]; destruct s; reflexivity).
+  assert (L : lcp (ms (upd (set_lcp f') m0)) = f') by (destruct m0 as [s ? ? ? ? ?]; destruct s; reflexivity).
   rewrite L. pose proof (fsm_close_not_open (lcp (ms m0))) as K. rewrite Ec in K. exact K.
 Qed.
 Lemma on_auth_allowed_free : forall v i st m,
   ext m (on_auth_result v i true st m) /\ lcp (ms (on_auth_result v i true st m)) = lcp (ms m) /\ fstep m (on_auth_result v i true st m).
 Proof.
   intros v i st m. unfold on_auth_result.
-  set (m1 := upd (fun s => let st0 := static_attr s || st in set_addr st0 (if st0 then AStatic else cur4 s) (assigned4 s) (acked4 s) (alloc_pool s) s) m).
+  set (m1 := new_ctx (upd (fun s => let st0 := static_attr s || st in set_addr st0 (if st0 then AStatic else cur4 s) (assigned4 s) (acked4 s) (alloc_pool s) s) m)).
   set (m2 := match pty (ms m1) with PtPap => emit (OPap 2) m1 | PtChap => emit (OChap 3) m1 | PtNone => m1 end).
   assert (S2 : same m (upd (set_ph PNetwork) m2)).
-  { assert (A1 : same m m1) by (unfold m1; apply same_upd; intros []; reflexivity).
+  { assert (A1 : same m m1).
+    { unfold m1, new_ctx. eapply same_trans; [|apply same_upd; intros s; apply lcp_on_fam].
+      eapply same_trans; [|apply same_upd; intros s; apply lcp_on_fam]. apply same_upd; intros []; reflexivity. }
     assert (A2 : same m1 m2) by (unfold m2; destruct (pty (ms m1)); try apply same_refl; apply same_emit).
     assert (A3 : same m2 (upd (set_ph PNetwork) m2)) by (apply same_upd; intros []; reflexivity).
     eapply same_trans; [exact A1|]. eapply same_trans; [exact A2|exact A3]. }
@@ -212,7 +269,7 @@ Proof.
   set (m3 := start_ncp v i (upd (set_ph PNetwork) m2)) in *.
   assert (F : same m3 (upd (set_pend None PtNone) m3)) by (apply same_upd; intros []; reflexivity).
   destruct F as (f1 & f2 & f3).
-  repeat split.
+  split; [|split].
   - intros o K. apply f2, n1, s2, K.
   - congruence.
   - destruct n3 as [n3|n3]; [left|right]; congruence.
@@ -228,6 +285,22 @@ Definition lcp_open_at (st : state) (i : nat) : bool :=
 
 (* whenever a step moves slot i's LCP out of Opened — except by the slot's own PADR / PADT / dead-peer event, which
    reset the monitor as inputs — the outputs of the step contain the marker the monitor resets on *)
+Lemma aaa_apply_marks : forall v j a m,
+  ext m (aaa_apply v j a m) /\ (lopen m = true -> lopen (aaa_apply v j a m) = false -> In GLcpDown (mo (aaa_apply v j a m))).
+Proof.
+  intros v j a m0. unfold aaa_apply.
+  destruct (allowed_of a) eqn:Ea.
+  - rewrite andb_false_r. cbn [andb]. destruct (on_auth_allowed_free v j (match a with AAccIp => true | _ => false end) m0) as (a1 & a2 & _).
+    split; auto. unfold lopen. rewrite a2. intros X Y. rewrite X in Y. discriminate Y.
+  - destruct (on_auth_denied_marks v j (match a with AAccIp => true | _ => false end) m0) as (d1 & d2 & _).
+    pose proof (on_auth_denied_closed v j (match a with AAccIp => true | _ => false end) m0) as C.
+    destruct (vrep v && negb false && live (ms (on_auth_result v j false match a with AAccIp => true | _ => false end m0))).
+    + split.
+      * intros o K. unfold terminate. cbn. right. right. apply d1. exact K.
+      * intros Ho _. unfold terminate. cbn. right. right. apply d2; auto.
+    + split; auto.
+Qed.
+
 Theorem lcp_down_marked : forall v st e i,
   e <> EvOpen i -> e <> EvPadt i -> e <> EvDead i ->
   lcp_open_at st i = true -> lcp_open_at (fst (step v st e)) i = false ->
@@ -236,10 +309,10 @@ Proof.
   intros v st e i N1 N2 N3 Ha Hb. unfold lcp_open_at in *.
   destruct (nth_error (sl st) i) as [s|] eqn:Hn; [|discriminate].
   assert (OS : forall j h,
-     (j = i -> ext (mkM s (nreq st) (free st) (queue st) []) (h (mkM s (nreq st) (free st) (queue st) [])) /\
-               (lopen (mkM s (nreq st) (free st) (queue st) []) = true ->
-                lopen (h (mkM s (nreq st) (free st) (queue st) [])) = false ->
-                In GLcpDown (mo (h (mkM s (nreq st) (free st) (queue st) []))))) ->
+     (j = i -> ext (mkM s (nreq st) (free st) (queue st) [] (free6 st)) (h (mkM s (nreq st) (free st) (queue st) [] (free6 st))) /\
+               (lopen (mkM s (nreq st) (free st) (queue st) [] (free6 st)) = true ->
+                lopen (h (mkM s (nreq st) (free st) (queue st) [] (free6 st))) = false ->
+                In GLcpDown (mo (h (mkM s (nreq st) (free st) (queue st) [] (free6 st)))))) ->
      match nth_error (sl (fst (on_slot st j h))) i with Some s' => opb (fs (lcp s')) | None => false end = false ->
      In (i, GLcpDown) (snd (on_slot st j h))).
   { intros j h Hh Hb'. unfold on_slot in *. destruct (Nat.eq_dec j i) as [E|E].
@@ -248,13 +321,13 @@ Proof.
     - destruct (nth_error (sl st) j) as [sj|]; cbn [fst snd sl] in *.
       + rewrite nth_set_nth_neq in Hb'; auto. rewrite Hn in Hb'. congruence.
       + rewrite Hn in Hb'. congruence. }
-  destruct e as [j|j f|k a|j t|j|j| ]; cbn [step] in *.
+  destruct e as [j|j f|k a|j t|j|j| |jh k a]; cbn [step] in *.
   - destruct (Nat.eq_dec j i); [subst; congruence|].
     unfold on_slot in *. destruct (nth_error (sl st) j); cbn [fst snd sl] in *;
       [rewrite nth_set_nth_neq in Hb; auto|]; rewrite Hn in Hb; congruence.
   - apply OS; auto. intros E. cbn [ms]. destruct (live s).
-    + destruct (handle_frame_marks v j f (mkM s (nreq st) (free st) (queue st) [])) as (m1 & m2 & _).
-      destruct (vtd v && in_net (ph s) && existsb is_lcp_down (mo (handle_frame v j f (mkM s (nreq st) (free st) (queue st) [])))) eqn:Et.
+    + destruct (handle_frame_marks v j f (mkM s (nreq st) (free st) (queue st) [] (free6 st))) as (m1 & m2 & _).
+      destruct (vtd v && in_net (ph s) && existsb is_lcp_down (mo (handle_frame v j f (mkM s (nreq st) (free st) (queue st) [] (free6 st))))) eqn:Et.
       * apply andb_true_iff in Et. destruct Et as [_ Et]. apply existsb_exists in Et. destruct Et as (o & Ho & Io).
         destruct o; try discriminate. split.
         -- intros o K. unfold terminate. cbn. right. right. apply m1. exact K.
@@ -262,18 +335,8 @@ Proof.
       * split; auto.
     + split; [intros o K; exact K|intros; congruence].
   - destruct (find_idx (pend_matches v k) (sl st) 0) as [j|] eqn:Ef; [|cbn [fst] in Hb; rewrite Hn in Hb; congruence].
-    apply OS; auto. intros E. set (m0 := mkM s (nreq st) (free st) (queue st) []).
-    destruct (allowed_of a) eqn:Ea.
-    + rewrite andb_false_r. destruct (on_auth_allowed_free v j (match a with AAccIp => true | _ => false end) m0) as (a1 & a2 & _).
-      split; auto. unfold lopen. rewrite a2. congruence.
-    + destruct (on_auth_denied_marks v j (match a with AAccIp => true | _ => false end) m0) as (d1 & d2 & _).
-      pose proof (on_auth_denied_closed v j (match a with AAccIp => true | _ => false end) m0) as C.
-      destruct (vrep v); cbn [andb negb].
-      * split.
-        -- intros o K. unfold terminate. cbn. right. right. apply d1. exact K.
-        -- intros Ho _. unfold terminate. cbn. right. right. apply d2; auto.
-      * split; auto.
-  - apply OS; auto. intros E. destruct (handle_timer_marks v j t (mkM s (nreq st) (free st) (queue st) [])) as (m1 & m2 & _). split; auto.
+    apply OS; auto. intros E. apply aaa_apply_marks.
+  - apply OS; auto. intros E. destruct (handle_timer_marks v j t (mkM s (nreq st) (free st) (queue st) [] (free6 st))) as (m1 & m2 & _). split; auto.
   - destruct (Nat.eq_dec j i); [subst; congruence|].
     unfold on_slot in *. destruct (nth_error (sl st) j); cbn [fst snd sl] in *;
       [rewrite nth_set_nth_neq in Hb; auto|]; rewrite Hn in Hb; congruence.
@@ -282,42 +345,70 @@ Proof.
       [rewrite nth_set_nth_neq in Hb; auto|]; rewrite Hn in Hb; congruence.
   - destruct (queue st) as [|[j g] q]; [cbn [fst] in Hb; rewrite Hn in Hb; congruence|].
     destruct (nth_error (sl st) j) as [sj|]; [destruct (Nat.eqb (gen sj) g)|]; cbn [fst sl] in Hb; rewrite Hn in Hb; congruence.
+  - destruct (nth_error (sl st) jh) as [sj|]; [|cbn [fst] in Hb; rewrite Hn in Hb; congruence].
+    destruct (held_matches v k sj); [|cbn [fst] in Hb; rewrite Hn in Hb; congruence].
+    apply OS; auto. intros E. apply aaa_apply_marks.
 Qed.
 
-(* the pool: it shrinks only in an allowed AAA answer that matches a live session's outstanding request, by one *)
+Lemma on_slot_free : forall st j h,
+  free (fst (on_slot st j h)) =
+  match nth_error (sl st) j with
+  | Some s => mfree (h (mkM s (nreq st) (free st) (queue st) [] (free6 st)))
+  | None => free st
+  end.
+Proof. intros. unfold on_slot. destruct (nth_error (sl st) j); reflexivity. Qed.
+Lemma terminate_mfree : forall m, mfree m <= mfree (terminate (upd (set_live false) m)).
+Proof.
+  intros [s n fr q l f6]. unfold terminate. cbn [emit upd ms mn mfree mq mo mfree6].
+  destruct (alloc_pool (set_live false s) && addr_eqb (cur4 (set_live false s)) APool); lia.
+Qed.
+
+Lemma aaa_apply_free : forall v j a m,
+  (allowed_of a = false -> mfree m <= mfree (aaa_apply v j a m)) /\
+  (allowed_of a = true -> mfree (aaa_apply v j a m) = mfree m \/ mfree m = S (mfree (aaa_apply v j a m))).
+Proof.
+  intros v j a m. unfold aaa_apply. split; intros Ea; rewrite Ea.
+  - pose proof (proj2 (proj2 (on_auth_denied_marks v j (match a with AAccIp => true | _ => false end) m))) as D.
+    destruct (vrep v && negb false && live (ms (on_auth_result v j false match a with AAccIp => true | _ => false end m))).
+    + eapply Nat.le_trans; [|apply terminate_mfree]. rewrite D. auto.
+    + rewrite D. auto.
+  - rewrite andb_false_r. cbn [andb].
+    destruct (on_auth_allowed_free v j (match a with AAccIp => true | _ => false end) m) as (_ & _ & [F|F]); auto.
+Qed.
+
+(* the pool: it shrinks only in an allowed AAA answer — one that matches a live session's outstanding request, or one
+   that was matched earlier and is applied now (EvAAAHeld) — and then by one *)
 Theorem alloc_needs_accept : forall v st e,
   free (fst (step v st e)) < free st ->
-  exists k a i, e = EvAAA k a /\ allowed_of a = true /\ find_idx (pend_matches v k) (sl st) 0 = Some i /\
-                free st = S (free (fst (step v st e))).
+  exists k a i, (e = EvAAA k a /\ find_idx (pend_matches v k) (sl st) 0 = Some i \/ e = EvAAAHeld i k a) /\
+                allowed_of a = true /\ free st = S (free (fst (step v st e))).
 Proof.
   intros v st e Hlt.
-  assert (OS : forall j h, (forall s, mfree (mkM s (nreq st) (free st) (queue st) []) <= mfree (h (mkM s (nreq st) (free st) (queue st) []))) ->
+  assert (OS : forall j h, (forall s, mfree (mkM s (nreq st) (free st) (queue st) [] (free6 st)) <= mfree (h (mkM s (nreq st) (free st) (queue st) [] (free6 st)))) ->
                            free st <= free (fst (on_slot st j h))).
   { intros j h Hh. unfold on_slot. destruct (nth_error (sl st) j) as [s|]; cbn [fst free]; auto. apply (Hh s). }
-  assert (TM : forall m, mfree m <= mfree (terminate (upd (set_live false) m))).
-  { intros [s n fr q l]. unfold terminate. cbn. destruct (alloc_pool s && addr_eqb (cur4 s) APool); lia. }
-  destruct e as [j|j f|k a|j t|j|j| ]; cbn [step] in *.
+  pose proof terminate_mfree as TM.
+  destruct e as [j|j f|k a|j t|j|j| |jh k a]; cbn [step] in *.
   - exfalso. apply (Nat.lt_irrefl (free st)). eapply Nat.le_lt_trans; [|exact Hlt]. apply OS. intros s.
     unfold open_session. cbn [ms mn mfree mq mo].
     rewrite (proj2 (proj2 (lcp_apply_marks v j (fsm_open (vrfc v)) _ (fsm_open_ok (vrfc v))))).
     rewrite (proj2 (proj2 (lcp_apply_marks v j fsm_up _ fsm_up_ok))). cbn. auto.
   - exfalso. apply (Nat.lt_irrefl (free st)). eapply Nat.le_lt_trans; [|exact Hlt]. apply OS. intros s. cbn [ms].
     destruct (live s); auto.
-    pose proof (proj2 (proj2 (handle_frame_marks v j f (mkM s (nreq st) (free st) (queue st) [])))) as F. cbn [mfree] in F.
-    destruct (vtd v && in_net (ph s) && existsb is_lcp_down (mo (handle_frame v j f (mkM s (nreq st) (free st) (queue st) [])))).
+    pose proof (proj2 (proj2 (handle_frame_marks v j f (mkM s (nreq st) (free st) (queue st) [] (free6 st))))) as F. cbn [mfree] in F.
+    destruct (vtd v && in_net (ph s) && existsb is_lcp_down (mo (handle_frame v j f (mkM s (nreq st) (free st) (queue st) [] (free6 st))))).
     + eapply Nat.le_trans; [|apply TM]. rewrite F. auto.
     + rewrite F. auto.
   - destruct (find_idx (pend_matches v k) (sl st) 0) as [j|] eqn:Ef; [|cbn [fst] in Hlt; lia].
     destruct (allowed_of a) eqn:Ea.
-    + exists k, a, j. repeat split; auto. rewrite andb_false_r in *. unfold on_slot in *.
-      destruct (nth_error (sl st) j) as [s|]; cbn [fst free] in *; [|lia].
-      destruct (on_auth_allowed_free v j (match a with AAccIp => true | _ => false end) (mkM s (nreq st) (free st) (queue st) [])) as (_ & _ & [F|F]);
-        cbn [mfree] in F; lia.
+    + exists k, a, j. split; [left; split; [reflexivity|exact Ef]|]. split; [auto|].
+      rewrite on_slot_free in Hlt |- *.
+      destruct (nth_error (sl st) j) as [s|]; [|exfalso; exact (Nat.lt_irrefl _ Hlt)].
+      destruct (proj2 (aaa_apply_free v j a (mkM s (nreq st) (free st) (queue st) [] (free6 st))) Ea) as [F|F]; cbn [mfree] in F.
+      * exfalso. rewrite F in Hlt. exact (Nat.lt_irrefl _ Hlt).
+      * exact F.
     + exfalso. apply (Nat.lt_irrefl (free st)). eapply Nat.le_lt_trans; [|exact Hlt]. apply OS. intros s.
-      pose proof (proj2 (proj2 (on_auth_denied_marks v j (match a with AAccIp => true | _ => false end) (mkM s (nreq st) (free st) (queue st) [])))) as D.
-      destruct (vrep v); cbn [andb negb].
-      * eapply Nat.le_trans; [|apply TM]. rewrite D. auto.
-      * rewrite D. auto.
+      apply (proj1 (aaa_apply_free v j a _) Ea).
   - exfalso. apply (Nat.lt_irrefl (free st)). eapply Nat.le_lt_trans; [|exact Hlt]. apply OS. intros s.
     rewrite (proj2 (proj2 (handle_timer_marks v j t _))). auto.
   - exfalso. apply (Nat.lt_irrefl (free st)). eapply Nat.le_lt_trans; [|exact Hlt]. apply OS. intros s. cbn [ms].
@@ -326,4 +417,14 @@ Proof.
     destruct (live s); auto.
   - exfalso. destruct (queue st) as [|[j g] q]; [cbn [fst] in Hlt; lia|].
     destruct (nth_error (sl st) j) as [sj|]; [destruct (Nat.eqb (gen sj) g)|]; cbn [fst free] in Hlt; lia.
+  - destruct (nth_error (sl st) jh) as [sj|] eqn:Ej; [|cbn [fst] in Hlt; exfalso; exact (Nat.lt_irrefl _ Hlt)].
+    destruct (held_matches v k sj); [|cbn [fst] in Hlt; exfalso; exact (Nat.lt_irrefl _ Hlt)].
+    destruct (allowed_of a) eqn:Ea.
+    + exists k, a, jh. split; [right; reflexivity|]. split; [auto|].
+      rewrite on_slot_free in Hlt |- *. rewrite Ej in Hlt |- *.
+      destruct (proj2 (aaa_apply_free v jh a (mkM sj (nreq st) (free st) (queue st) [] (free6 st))) Ea) as [F|F]; cbn [mfree] in F.
+      * exfalso. rewrite F in Hlt. exact (Nat.lt_irrefl _ Hlt).
+      * exact F.
+    + exfalso. apply (Nat.lt_irrefl (free st)). eapply Nat.le_lt_trans; [|exact Hlt]. apply OS. intros s.
+      apply (proj1 (aaa_apply_free v jh a _) Ea).
 Qed.
